@@ -225,7 +225,7 @@ fn fresh_process_check(spec: &RunSpec, res: &mut RunResult) {
             k += 1;
             res.compared += 1;
             res.counters.add("reach.compared_with_fresh_process", 1);
-            if !m.same_answer(t) {
+            if op.elem_fault == 0 && !m.same_answer(t) {
                 res.violations.push(Violation {
                     property: "C17".into(),
                     kind: "process-history-dependence".into(),
@@ -254,7 +254,7 @@ fn entry_point_check(spec: &RunSpec, table: &RefTable, out: &mut Vec<Violation>,
         let cfg = &spec.slots[op.slot];
         // user strategies need not be pure (the stub's values carry the callback index): the
         // entry-point clause is about the built-in strategies
-        if cfg.kind.is_probe() {
+        if cfg.kind.is_probe() || op.elem_fault != 0 {
             continue;
         }
         // single-point entry points among themselves: interp_scalar / interp_into vs interp
@@ -267,7 +267,7 @@ fn entry_point_check(spec: &RunSpec, table: &RefTable, out: &mut Vec<Violation>,
             if res.class == Class::Panic || res.class == Class::Skip {
                 continue;
             }
-            let single = Op { slot: op.slot, call: Call::Interp { x: *x, y: *y }, plan: op.plan.clone(), yield_mask: 0, check_acc: false };
+            let single = Op { slot: op.slot, call: Call::Interp { x: *x, y: *y }, plan: op.plan.clone(), yield_mask: 0, check_acc: false, elem_fault: 0 };
             let slot = build_slot(cfg)?;
             let s = exec(&*slot, &single);
             counters.add("entrypoint.comparisons", 1);
@@ -299,7 +299,7 @@ fn entry_point_check(spec: &RunSpec, table: &RefTable, out: &mut Vec<Violation>,
         for i in 0..n {
             let x = q.xs[i];
             let y = if q.ys.is_empty() { Fb(0.0) } else { q.ys[i] };
-            let single = Op { slot: op.slot, call: Call::Interp { x, y }, plan: vec![], yield_mask: 0, check_acc: false };
+            let single = Op { slot: op.slot, call: Call::Interp { x, y }, plan: vec![], yield_mask: 0, check_acc: false, elem_fault: 0 };
             let slot = build_slot(cfg)?;
             let s = exec(&*slot, &single);
             counters.add("entrypoint.comparisons", 1);
@@ -520,6 +520,44 @@ pub fn check_c18(op: &Op, cfg: &SlotCfg, out: &Outcome, thread: usize, opi: usiz
     }
 }
 
+/// re-entrant calls made from inside callbacks of `op`: each must answer exactly as the same call
+/// made alone on a freshly built interpolator (C17: being inside another call is history), and
+/// what its own callbacks received must satisfy the strategy-seam guarantees (C18)
+fn check_nested(spec: &RunSpec, op: &Op, out: &Outcome, prop: Prop, thread: usize, opi: usize, step: usize, cache: &mut BTreeMap<String, Outcome>, v: &mut Vec<Violation>) {
+    let cfg = &spec.slots[op.slot];
+    for n in &out.stub.nested {
+        let pseudo = Op { slot: op.slot, call: n.call.clone(), plan: vec![], yield_mask: 0, check_acc: false, elem_fault: 0 };
+        if prop == Prop::C18 {
+            let mut v18 = vec![];
+            check_c18(&pseudo, cfg, &n.out, thread, opi, step, &mut v18);
+            for mut x in v18 {
+                x.detail = format!("re-entrant call from callback {} of {}: {}", n.at, op.call.name(), x.detail);
+                v.push(x);
+            }
+        }
+        let key = op_key(&pseudo);
+        let want = match cache.get(&key) {
+            Some(w) => w.clone(),
+            None => {
+                let Ok(slot) = build_slot(cfg) else { continue };
+                let w = exec(&*slot, &pseudo);
+                cache.insert(key, w.clone());
+                w
+            }
+        };
+        if !n.out.same_answer(&want) {
+            v.push(Violation {
+                property: prop.id().into(),
+                kind: if prop == Prop::C17 { "result-mismatch".into() } else { "concurrent-operation-affected".into() },
+                detail: format!("re-entrant call from callback {} of {} answers differently from the same call made alone: {}", n.at, op.call.name(), mismatch_detail(&pseudo, cfg, &want, &n.out)),
+                thread,
+                op: opi,
+                step,
+            });
+        }
+    }
+}
+
 fn probe_counters(spec: &RunSpec, op: &Op, out: &Outcome, c: &mut Counters) {
     let cfg = &spec.slots[op.slot];
     c.add(&format!("entry.{}", op.call.name()), 1);
@@ -600,6 +638,21 @@ fn probe_counters(spec: &RunSpec, op: &Op, out: &Outcome, c: &mut Counters) {
     }
     if !out.stub.tokens.is_empty() {
         c.add("fault.strat_err.fired", 1);
+    }
+    if op.elem_fault != 0 {
+        c.add("fault.elem_panic.configured", 1);
+        if out.stub.elem_fault_fired {
+            c.add("fault.elem_panic.fired", 1);
+        }
+    }
+    if !out.stub.nested.is_empty() {
+        c.add("fault.reenter.fired", out.stub.nested.len() as u64);
+        if op.call.batch_len() > 1 && out.stub.nested.iter().any(|n| n.call.batch_len() > 1) {
+            c.add("reach.reentrant_batch_inside_batch", 1);
+        }
+        if out.stub.nested.iter().any(|n| n.out.stub.yields > 0) {
+            c.add("reach.reentrant_call_suspended", 1);
+        }
     }
     if out.stub.panicked {
         c.add("fault.strat_panic.fired", 1);
@@ -723,6 +776,14 @@ pub fn run_spec(spec: &RunSpec, prop: Prop, opts: &RunOpts) -> RunResult {
             return res;
         }
     }
+    let mut nest_cache: BTreeMap<String, Outcome> = BTreeMap::new();
+    for (op, out) in table.ops.iter().zip(table.outs.iter()) {
+        check_nested(spec, op, out, prop, usize::MAX, 0, 0, &mut nest_cache, &mut res.violations);
+    }
+    if !res.violations.is_empty() {
+        res.violations.iter_mut().for_each(|v| v.kind = format!("{} (alone, fresh instance)", v.kind));
+        return res;
+    }
     // ---- the simulated history ----------------------------------------------------------------
     let n = spec.threads.len();
     let baton = Baton::new(n, &spec.sched, spec.stall.clone());
@@ -746,7 +807,9 @@ pub fn run_spec(spec: &RunSpec, prop: Prop, opts: &RunOpts) -> RunResult {
                     let step = baton.step();
                     let want = &table.outs[table.idx[t][i]];
                     events.lock().unwrap().push(Event { step, thread: t, op: i, digest: out.digest() });
-                    if !out.same_answer(want) {
+                    // an operation carrying an element-operation fault is a fault injected into the
+                    // history of the others; its own outcome is not compared (see `Op::elem_fault`)
+                    if op.elem_fault == 0 && !out.same_answer(want) {
                         viols.lock().unwrap().push(Violation {
                             property: "C17".into(),
                             kind: "result-mismatch".into(),
@@ -792,6 +855,9 @@ pub fn run_spec(spec: &RunSpec, prop: Prop, opts: &RunOpts) -> RunResult {
         probe_counters(spec, &spec.threads[*t].ops[*i], out, &mut res.counters);
     }
     let mut v = viols.into_inner().unwrap();
+    for (t, i, step, out) in &outs {
+        check_nested(spec, &spec.threads[*t].ops[*i], out, prop, *t, *i, *step, &mut nest_cache, &mut v);
+    }
     v.sort_by_key(|x| (x.step, x.thread, x.op));
     if prop == Prop::C17 {
         res.violations.extend(v);
@@ -799,6 +865,11 @@ pub fn run_spec(spec: &RunSpec, prop: Prop, opts: &RunOpts) -> RunResult {
         // C18: a mismatch with the solitary execution on a probe slot is a misrouted fault /
         // cross-talk between concurrent operations
         for mut x in v {
+            if x.property == "C18" {
+                // found by the checks over re-entrant calls
+                res.violations.push(x);
+                continue;
+            }
             let op = &spec.threads[x.thread].ops[x.op];
             if spec.slots[op.slot].kind.is_probe() {
                 x.property = "C18".into();
@@ -819,7 +890,7 @@ pub fn run_spec(spec: &RunSpec, prop: Prop, opts: &RunOpts) -> RunResult {
         for (k, op) in table.ops.iter().enumerate().take(8) {
             let out = exec(&*shared[op.slot], op);
             res.compared += 1;
-            if !out.same_answer(&table.outs[k]) {
+            if op.elem_fault == 0 && !out.same_answer(&table.outs[k]) {
                 res.violations.push(Violation {
                     property: "C17".into(),
                     kind: "result-mismatch".into(),
@@ -834,7 +905,7 @@ pub fn run_spec(spec: &RunSpec, prop: Prop, opts: &RunOpts) -> RunResult {
         // ---- reference stability: new pristine instances, reverse order ----------------------
         if let Ok(t2) = tabulate(spec, true) {
             for k in 0..table.ops.len() {
-                if !t2.outs[k].same_answer(&table.outs[k]) {
+                if table.ops[k].elem_fault == 0 && !t2.outs[k].same_answer(&table.outs[k]) {
                     res.violations.push(Violation {
                         property: "C17".into(),
                         kind: "reference-unstable".into(),
